@@ -41,7 +41,7 @@ def main(tier, seed):
                 "histories through the generated C API (gcc ASan+UBSan, valgrind subset), the generated C++ owning wrappers (g++ ASan), and "
                 "from a Rust driver inside the bridge module that calls the macro's extern \"C\" functions as a foreign caller would (raw "
                 "{ptr,len} views, diplomat_alloc'd owned arguments, raw opaque handles, transmuted callbacks) interpreted by Miri (Stacked "
-                "Borrows, every fourth program Tree Borrows; leak check on); NEW/DROP/CBDROP conservation is checked on every observed log.")
+                "Borrows; a quarter each additionally with symbolic alignment checking, strict provenance, or Tree Borrows; leak check on); NEW/DROP/CBDROP conservation is checked on every observed log.")
     chk.extra = {"runtime_stats": total, "api_stats": api_stats, "modes": sorted({r.mode for r in results}),
                  "processes": len(results), "sanitizer_reports": sum(len(r.sanitizer_reports()) for r in results)}
     chk.sample({"history": ["create DiplomatOption<DiplomatOwnedSlice<T>> ids=[4,5]",
